@@ -41,6 +41,12 @@ CLAIMED = {
             "all values for the enumerated event shapes; MADE mixture, KDE evaluator and BoxUniform not under contract (listed)", "4-C05"),
     "C03": ("proof", "contract-based deductive verification of the premises of the change-of-variables theorem: Flow._log_prob proved to be exactly base log-density of the transformed point plus log-abs-det (uninterpreted transform / embedding), plus re-discharged bijection / log-det / base-density contracts; the integral itself follows by the (trusted) theorem",
             "structure clause for all transforms and contexts; premises for all values on one configuration each (full strength in C01/C02/C05/C09); quadrature is replaced by the theorem", "4-C03"),
+    "C15": ("proof", "contract-based deductive verification: two instances built by the real constructors with distinct fresh symbols for every random draw; after the real load_state_dict the result terms of forward / inverse / log_prob (and of a continued training-mode forward) must be identical, for all draws, parameter values and inputs",
+            "all random draws and values for 18 class configurations and three histories before saving", "4-C15"),
+}
+NA_REASONS = {
+    "C16": ("not claimed: 'gradients equal the true derivatives (finite differences)' is a statement about torch.autograd, which is external code assumed correct by this family; "
+            "the only contract-decidable part (every result is graph-connected to every parameter its value depends on) was not built in the time available (DESIGN.md 4-C16)"),
 }
 REASON_TODO = "check not built yet in this session (the design in DESIGN.md section 4 applies; will be claimed when its contracts discharge)"
 props = [json.loads(l) for l in open(os.path.join(V, "properties.jsonl"))]
@@ -53,7 +59,7 @@ for p in props:
                        "evidence_file": f"evidence/{pid}.json", "replay_cmd_template": "./check --replay {path}", "engine": "tsv",
                        "level_claimed": {"category": cat, "text": text, "design_ref": ref}, "level_note": NOTE, "technique": tech})
     else:
-        na.append({"property_id": pid, "reason": NA.get(pid, REASON_TODO) if (NA := globals().get("NA_REASONS", {})) is not None else REASON_TODO})
+        na.append({"property_id": pid, "reason": NA_REASONS.get(pid, REASON_TODO)})
 m = {"version": 1, "setup_cmd": "./setup.sh",
      "hooks": {"guard": "NFLOWS_VERIF", "enable": "none needed: instrumentation (lemma cuts, assert->obligation) is inserted into the function AST in memory at check time; the guard is unused and no hook commit exists in /repo",
                "baseline_off_cmd": "cd /repo && /venv/bin/python -m pytest -ra -q -p no:cacheprovider --timeout=900 --continue-on-collection-errors",
